@@ -268,7 +268,7 @@ class GOb(Obligation):
                 if not ok:
                     return dict(native_fails=True, env=env, seed=seed, observed=info, symbolic_reason=why)
         return dict(native_fails=False, native_ok_everywhere=bool(tried) and all(t.get("ok") for t in tried), tried=tried[:4],
-                    symbolic_reason=why, polynomial=("^1/2" not in why and "abs(" not in why and "sign(" not in why))
+                    symbolic_reason=why, polynomial=("^1/2" not in why and "abs(" not in why and "sign(" not in why and "WHERE#" not in why and "HAVOC#" not in why and "MASKSEL#" not in why))
 
     def _monitor(self, path):
         envs = self._envs(path, 3)
